@@ -46,7 +46,12 @@ func mSqrtInv(matrix Matrix) (Matrix, error) {
   }
   X1 := NullDenseMatrix(matrix.ElementType(), n, n)
   X1.MmulS(S1.MdotM(X0, t), c)
-  for t1.Mnorm(S1.MsubM(X0, X1)).GetFloat64() > 1e-8 {
+  // the iteration does not converge for every matrix (e.g. if the matrix has
+  // negative eigenvalues), hence the number of steps is bounded
+  for k := 0; t1.Mnorm(S1.MsubM(X0, X1)).GetFloat64() > 1e-8; k++ {
+    if k > 1000 {
+      return nil, errors.New("MSqrtInv(): iteration did not converge")
+    }
     X0, X1 = X1, X0
     t, err := matrixInverse.Run(S1.MaddM(I, S2.MdotM(A, S1.MdotM(X0, X0))))
     if err != nil {
